@@ -6,7 +6,7 @@ HOOKS = {
     "enable": "go1.26.8 test -tags verif (harness module /verif/harness, replace github.com/tsuna/gohbase => /repo); "
               "if the hook files are absent from /repo the driver injects copies with -overlay",
     "baseline_off_cmd": "cd /repo && go test -vet=off -count=1 -timeout 25m ./...",
-    "source_commits": ["4fc7d7a", "eb3db2f"],
+    "source_commits": ["4fc7d7a", "eb3db2f", "08a7e0b"],
     "add_only": True,
 }
 
@@ -322,6 +322,9 @@ prop("C20", "exploration",
      "Trusted: the simulated cluster's log (client-side close times from memconn). Server-fatal exceptions are "
      "injected as a server state (exception + the server dropping the connection), not as isolated per-action results.",
      [
+         {"test": "TestC20_ClientCacheConcurrent", "quick": {"checks": 400, "shards": 4, "timeout": 300},
+          "thorough": {"checks": 4000, "shards": 16, "timeout": 1500}},
+         {"test": "TestC20_ClientCacheConcurrent", "tag": "race", "thorough": {"checks": 300, "shards": 4, "timeout": 1500, "race": True}},
          {"test": "TestC20_OneConnection", "quick": {"checks": 4000, "timeout": 300},
           "thorough": {"checks": 40000, "shards": 16, "timeout": 2400}},
          {"test": "TestC20_OneConnection", "tag": "race", "thorough": {"checks": 2500, "shards": 4, "timeout": 3000, "race": True}},
